@@ -23,7 +23,51 @@ def hashers():
     # fshp: variant 0..3
     out.append(dict(name="fshp", base=H.fshp, keys=["variant"], kind=dict(variant="enum"), lo=dict(variant=0), hi=dict(variant=3), cands=dict(variant={0, 1, 2, 3, 4}),
                     to_real={}, attr=dict(variant="default_variant"), attr_map={}, extra=dict(rounds=1), parse=lambda s: dict(variant=int(s[5]))))
+    # truncating hashers: the truncate_error policy is carried along the derivation tree; what it does is observed in BYTES
+    from passlib import registry
+    for name in sorted(registry.list_crypt_handlers()):
+        try:
+            h = registry.get_crypt_handler(name)
+            w = getattr(h, "wrapped", h)
+            if not getattr(w, "truncate_size", None) or "truncate_error" not in h.setting_kwds or (hasattr(h, "has_backend") and not h.has_backend()):
+                continue
+        except Exception:
+            continue
+        extra = {}
+        if "rounds" in h.setting_kwds:
+            extra["rounds"] = w.min_rounds if w.rounds_cost == "log2" else max(w.min_rounds, 1)
+        out.append(dict(name=name, base=h, keys=["truncate_error"], kind=dict(truncate_error="enum"), lo=dict(truncate_error=0), hi=dict(truncate_error=1),
+                        cands=dict(truncate_error={0, 1}), to_real=dict(truncate_error={0: False, 1: True}), attr=dict(truncate_error="truncate_error"),
+                        attr_map=dict(truncate_error={False: 0, True: 1, None: 0}), extra=extra,
+                        observe=truncation_observer(w.truncate_size, utf8="encoding" not in h.context_kwds)))
     return out
+
+
+def truncation_observer(n, utf8=True):
+    def observe(h):
+        from passlib.exc import PasswordTruncateError
+        res = {}
+        for pname, ppw in (("text", "x" * (n + 1)), ("bytes", b"x" * (n + 1)), ("wide-text", "\xfc" * (n // 2 + 1)), ("non-utf8-bytes", b"\xff\xfe" * (n // 2 + 1)),
+                           ("text-at-limit", "x" * n), ("wide-text-at-limit", "\xfc" * (n // 2))):
+            if not utf8 and not (isinstance(ppw, str) and ppw.isascii()):
+                continue                # (the hasher encodes text with a codec of its own: only ASCII text measures the same everywhere)
+            try:
+                h.hash(ppw[:1] * 2)
+            except Exception:
+                continue                # this kind of password is not admissible for the hasher at all
+            try:
+                h.hash(ppw)
+                res[pname] = 0
+            except PasswordTruncateError:
+                res[pname] = 1
+        over = {v for k, v in res.items() if "at-limit" not in k}
+        at = {v for k, v in res.items() if "at-limit" in k}
+        if at - {0}:
+            return {"truncate_error": f"a password of exactly the limit is refused: {res}"}
+        if len(over) != 1:
+            return {"truncate_error": f"policy depends on how the password is given: {res}"}
+        return {"truncate_error": over.pop()}
+    return observe
 
 
 def run(chk, quick, rnd):
@@ -197,7 +241,7 @@ def fresh(hd, h, want):
     try:
         hh = h.using(**hd["extra"]) if hd["extra"] else h
         s = hh.hash("pw")
-        got = hd["parse"](s)
+        got = hd["observe"](hh) if "observe" in hd else hd["parse"](s)
         if got != want:
             return f"carries {got}, settings are {want} ({s[:50]})"
         if not h.verify("pw", s) or h.verify("px", s):
